@@ -192,11 +192,6 @@ pub fn run_scenario(sc: Scenario, tape: Tape, opts: RunOpts) -> RunRecord {
     let t_start = clock::EPOCH_NS + u64::from(sc.net.ecmp_salt % 1000) * 1_000_003;
     let mut world = World::new(sc.clone(), tape);
     world.call_budget = call_budget(&sc);
-    if let Some(m) = sc.mutation {
-        // the enumerated corruption is part of what distinguishes one run from another
-        let key = (u64::from(m.field) << 40) | (u64::from(m.value) << 20) | u64::from(m.trunc.map_or(0xfffff, u32::from));
-        world.ev(30, key ^ simcore::fnv1a(sc.tracer.cell().as_bytes()), 0);
-    }
     WORLD.with(|w| *w.borrow_mut() = Some(world));
     let rounds: RefCell<Vec<RoundRec>> = RefCell::new(Vec::new());
     let built = build_tracer(&sc);
@@ -207,6 +202,13 @@ pub fn run_scenario(sc: Scenario, tape: Tape, opts: RunOpts) -> RunRecord {
         Ok(tracer) => {
             clock::enable(t_start, sc.faults.tick_base_ns, sc.faults.tick_jitter_ns, tick_seed);
             clock::set_logging(opts.clock_log);
+            if let Some(m) = sc.mutation {
+                // the enumerated corruption is part of what distinguishes one run from another
+                // (logged once the virtual clock is on: event hashes include the time)
+                let key = (u64::from(m.field) << 40) | (u64::from(m.value) << 20) | u64::from(m.trunc.map_or(0xfffff, u32::from));
+                let cell = simcore::fnv1a(sc.tracer.cell().as_bytes());
+                crate::world::with_world(|w| w.ev(30, key ^ cell, 0));
+            }
             IN_SIM.with(|c| c.set(true));
             PANIC_INFO.with(|p| *p.borrow_mut() = None);
             let res = catch_unwind(AssertUnwindSafe(|| {
